@@ -281,7 +281,15 @@ def build_sim(sc, party, network=None, reuse_evs=None, reuse_queue=None, later=N
         per = sut.np.float64(per)
     kw.update(_kw(period=(per, 1), signals=(build_signals(sc["sim"]), None),
                   store_schedule_history=(bool(sc["sim"].get("store_schedule_history", False)), False)))
+    late = None
+    if sc["sim"].get("late_fill") and reuse_queue is None:
+        # the caller creates the (still empty) queue first, hands it to the Simulator and fills it afterwards through the reference
+        # it kept - the simulator was given THAT queue
+        late = [e for _, e in q.queue]
+        q = sut.EventQueue()
     sim = sut.Simulator(nw, first, q, build_start(sc["sim"]), verbose=bool(sc["sim"].get("verbose", False)), **kw)
+    if late is not None:
+        q.add_events(late)
     if first is not party:
         sim.update_scheduler(party)
     return sim
